@@ -639,6 +639,9 @@ func GetHandleID(netName, containerID, workload string) string {
 }
 
 func CreateClient(conf types.NetConf) (client.Interface, error) {
+	if c := verifClientHook(conf); c != nil {
+		return c, nil
+	}
 	if err := ValidateNetworkName(conf.Name); err != nil {
 		return nil, err
 	}
